@@ -43,6 +43,12 @@ func (c *jsonCtx) on(p string) bool { return len(c.props) == 0 || c.props[p] }
 func (c *jsonCtx) check(name string) { c.rep.OracleChecks[name]++ }
 
 func (c *jsonCtx) viol(prop, what string, line []byte, extra map[string]interface{}) {
+	if prop != "C17" && strings.HasPrefix(what, "panic") && c.props["C17"] {
+		c.viol("C17", what, line, extra) // a panic in a public entry point is C17's matter whatever oracle met it
+	}
+	if !c.on(prop) {
+		return
+	}
 	k := prop + "|" + what
 	c.vcount[k]++
 	if c.vcount[k] > 40 {
@@ -342,7 +348,8 @@ func (c *jsonCtx) line(l jsonLine) string {
 	}
 
 	// ---- direct oracles ----
-	if c.on("C16") {
+	if c.on("C16") || c.props["C17"] {
+		// (for C17 only the panics met on the way count: viol() routes them)
 		c.oracleC16(line, hasLF, run, accept, wellFormedStrings, strictObj)
 	}
 	if accept && c.on("C01") {
